@@ -14,6 +14,15 @@ import Thanos.Model.Hashring
       T       mode t: `;`-list, one entry per section in ring order:  <ep>:<r0.r1.…>
               mode d: d<digest of the same numbers>
       G       `;`-list, one entry per series: <g0.g1.…>, gi = endpoint index | I (insufficient) | P (panic)
+
+  ketp <rf> <nq> <eps> <perm> <series>      the ring built from eps and from eps in the order perm
+      perm    `.`-list: for every new position the old position
+    -> <A1> <A2>    Ai = toofew | stuck | hang | panic | tie | <G>   (G in positions of eps, for both)
+
+  mod <nq> <addrs> <series>                 hashmod ring; addrs = `,`-list of <addrhex>
+    -> <G>          gi = first position of the answered address in addrs | I
+  modp <nq> <addrs> <perm> <series>         … and the ring built from the permuted list
+    -> <G1> <G2>
 -/
 open Thanos Thanos.Parse
 
@@ -85,10 +94,52 @@ def ket (lapCheck : Bool) (mode : String) (rf nq : Nat) (eps : List Ep) (vs : Li
     if hasTie secs then "tie"
     else s!"ok {showTable mode secs} {showGets eps.length secs nq vs}"
 
+/-- the GetN part only, endpoint indices renamed through `ren` (new position ↦ old position) -/
+def ketG (lapCheck : Bool) (rf nq : Nat) (eps : List Ep) (ren : List Nat) (vs : List Nat) : String :=
+  match build lapCheck eps rf with
+  | .tooFew => "toofew"
+  | .stuck => "stuck"
+  | .hang => "hang"
+  | .panic => "panic"
+  | .ring secs =>
+    if hasTie secs then "tie"
+    else joinWith ";" (vs.map fun v => joinWith "." ((List.range nq).map fun n =>
+      match getN eps.length secs v n with
+      | .node e => match ren[e]? with | some o => toString o | none => "?"
+      | g => showGet g))
+
+def parseAddrs (s : String) : Option (List (List Nat)) :=
+  (listOf ',' s).mapM fun t => (hexDecode? t).map (·.map (·.toNat))
+
+/-- first position of the address in the op line -/
+def addrIndex (addrs : List (List Nat)) (a : List Nat) : String :=
+  match addrs.findIdx? (· == a) with
+  | some i => toString i
+  | none => "?"
+
+def modG (nq : Nat) (orig addrs : List (List Nat)) (vs : List Nat) : String :=
+  joinWith ";" (vs.map fun v => joinWith "." ((List.range nq).map fun n =>
+    match simpleGetN addrs.length v n with
+    | .node _ => match simpleGet addrs v n with | some a => addrIndex orig a | none => "P"
+    | g => showGet g))
+
 def handle : List String → String
   | ["ket", mode, rf, nq, eps, series] =>
     match parseNat? rf, parseNat? nq, parseEps eps, parseSeries series with
     | some rf, some nq, some eps, some vs => ket true mode rf nq eps vs
+    | _, _, _, _ => "bad-op"
+  | ["ketp", rf, nq, eps, perm, series] =>
+    match parseNat? rf, parseNat? nq, parseEps eps, parseNats? '.' perm, parseSeries series with
+    | some rf, some nq, some eps, some perm, some vs =>
+      ketG true rf nq eps (List.range eps.length) vs ++ " " ++ ketG true rf nq (permute eps perm) perm vs
+    | _, _, _, _, _ => "bad-op"
+  | ["mod", nq, addrs, series] =>
+    match parseNat? nq, parseAddrs addrs, parseSeries series with
+    | some nq, some addrs, some vs => modG nq addrs addrs vs
+    | _, _, _ => "bad-op"
+  | ["modp", nq, addrs, perm, series] =>
+    match parseNat? nq, parseAddrs addrs, parseNats? '.' perm, parseSeries series with
+    | some nq, some addrs, some perm, some vs => modG nq addrs addrs vs ++ " " ++ modG nq addrs (permute addrs perm) vs
     | _, _, _, _ => "bad-op"
   | _ => "bad-op"
 
